@@ -539,3 +539,59 @@ Section EditsSanity.
   Lemma within_mono ref w k k' : k <= k' -> within syms ins del sub ref w k -> within syms ins del sub ref w k'.
   Proof. intros Hk [c [Hc H]]. exists c. split; [lia|exact H]. Qed.
 End EditsSanity.
+
+(* ---- with all three kinds the relation is the classical Levenshtein distance ---- *)
+Section Levenshtein.
+  Variable syms : list nat.
+
+  Lemma lev_nil_r r : lev r [] = length r.
+  Proof. destruct r; reflexivity. Qed.
+
+  Lemma lev_cons c r a w :
+    lev (c :: r) (a :: w) =
+    Nat.min (if Nat.eqb c a then lev r w else S (lev r w))
+            (Nat.min (S (lev (c :: r) w)) (S (lev r (a :: w)))).
+  Proof. reflexivity. Qed.
+
+  Lemma edits_lev_le ins del sub r w c : edits syms ins del sub r w c -> lev r w <= c.
+  Proof.
+    intro H. induction H as [|c0 r w c H IH|a r w c Hi Ha H IH|c0 r w c Hd H IH|c0 a r w c Hs Ha H IH].
+    - simpl. lia.
+    - rewrite lev_cons, Nat.eqb_refl. lia.
+    - destruct r as [|c1 r]; [simpl in *; lia|]. rewrite lev_cons. destruct (Nat.eqb c1 a); lia.
+    - destruct w as [|a w]; [rewrite lev_nil_r in *; simpl; lia|].
+      rewrite lev_cons. destruct (Nat.eqb c0 a); lia.
+    - rewrite lev_cons. destruct (Nat.eqb c0 a); lia.
+  Qed.
+
+  Lemma lev_edits : forall r w, (forall a, In a w -> In a syms) ->
+    edits syms true true true r w (lev r w).
+  Proof.
+    induction r as [|c r IHr].
+    - induction w as [|a w IHw]; intro Hw; simpl; [constructor|].
+      apply ed_ins; [reflexivity|apply Hw; left; reflexivity|].
+      apply IHw. intros b Hb. apply Hw. right. exact Hb.
+    - induction w as [|a w IHw]; intro Hw.
+      + change (lev (c :: r) []) with (S (length r)). apply ed_del; [reflexivity|].
+        rewrite <- (lev_nil_r r). apply IHr. intros b [].
+      + assert (Hw' : forall b, In b w -> In b syms) by (intros b Hb; apply Hw; right; exact Hb).
+        assert (Ha : In a syms) by (apply Hw; left; reflexivity).
+        rewrite lev_cons.
+        destruct (Nat.min_dec (if Nat.eqb c a then lev r w else S (lev r w))
+                              (Nat.min (S (lev (c :: r) w)) (S (lev r (a :: w))))) as [E|E]; rewrite E.
+        * destruct (Nat.eqb c a) eqn:Eca.
+          -- apply Nat.eqb_eq in Eca. subst a. apply ed_match. apply IHr. exact Hw'.
+          -- apply ed_sub; [reflexivity|exact Ha|]. apply IHr. exact Hw'.
+        * destruct (Nat.min_dec (S (lev (c :: r) w)) (S (lev r (a :: w)))) as [E2|E2]; rewrite E2.
+          -- apply ed_ins; [reflexivity|exact Ha|]. apply IHw. exact Hw'.
+          -- apply ed_del; [reflexivity|]. apply IHr. exact Hw.
+  Qed.
+
+  Lemma within_lev ref w k : (forall a, In a w -> In a syms) ->
+    (within syms true true true ref w k <-> lev ref w <= k).
+  Proof.
+    intro Hw. split.
+    - intros [c [Hc H]]. apply edits_lev_le in H. lia.
+    - intro H. exists (lev ref w). split; [exact H|apply lev_edits; exact Hw].
+  Qed.
+End Levenshtein.
